@@ -64,7 +64,12 @@ pub trait ZnxView: ZnxInfos + DataView<D: DataRef> {
 
     /// Returns a non-mutable reference to the entire underlying coefficient array.
     fn raw(&self) -> &[Self::Scalar] {
-        unsafe { std::slice::from_raw_parts(self.as_ptr(), self.n() * self.poly_count()) }
+        let len: usize = self.n() * self.poly_count();
+        if len == 0 {
+            // An empty object holds no allocation: its (dangling) byte pointer is not aligned for `Scalar`.
+            return &[];
+        }
+        unsafe { std::slice::from_raw_parts(self.as_ptr(), len) }
     }
 
     /// Returns a non-mutable pointer starting at the j-th small polynomial of the i-th column.
@@ -98,7 +103,12 @@ pub trait ZnxViewMut: ZnxView + DataViewMut<D: DataMut> {
 
     /// Returns a mutable reference to the entire underlying coefficient array.
     fn raw_mut(&mut self) -> &mut [Self::Scalar] {
-        unsafe { std::slice::from_raw_parts_mut(self.as_mut_ptr(), self.n() * self.poly_count()) }
+        let len: usize = self.n() * self.poly_count();
+        if len == 0 {
+            // An empty object holds no allocation: its (dangling) byte pointer is not aligned for `Scalar`.
+            return &mut [];
+        }
+        unsafe { std::slice::from_raw_parts_mut(self.as_mut_ptr(), len) }
     }
 
     /// Returns a mutable pointer starting at the j-th small polynomial of the i-th column.
